@@ -86,6 +86,21 @@ class OpView:
     def sends(self, bid=None):
         for (e, b) in self.op.sends:
             if bid is None or b == bid:
+                if e.variant == "UNKNOWN" and e.get("msg") is not None and e.msg[0] == "phi":
+                    # a message built in a multi-assigned local: one pseudo send per alternative (same site)
+                    alts = [send_fields(a) for a in e.msg[1]]
+                    if alts and all(a[0] in VARIANTS for a in alts):
+                        seen = set()
+                        for (sv, pl) in alts:
+                            if sv in seen:
+                                continue
+                            seen.add(sv)
+                            d = dict(e.d)
+                            d.update(variant=sv, payload=pl, pseudo=True)
+                            ne = Effect("send", e.site, e.s, **d)
+                            ne.tracing = e.tracing
+                            yield ne, b
+                        continue
                 yield e, b
 
     # ---- cell finders (by structure, never by name)
@@ -197,7 +212,11 @@ def census_core(ctx, model):
         elif bid == "<core::Callbag<I, O> as std::convert::From<F>>::from":
             found["from"] += 1
             r = P.link(b.origin_local(0))
-            ok = r[0] == "agg" and r[1] == "adt" and r[2].startswith("Callbag") and len(r[3]) == 1 and r[3][0] == ("param", bid, 1)
+            # the Callbag(..) newtype aggregate and Box::new are folded as identities: what is left must be the handler itself,
+            # and the body must construct exactly one Callbag aggregate
+            n_agg = sum(1 for blk in b.blocks.values() if not blk["cleanup"] for st in blk["stmts"]
+                        if st.get("rv", {}).get("k") == "agg" and st["rv"].get("adt") == "core::Callbag")
+            ok = r == ("param", bid, 1) and n_agg == 1
             body_effects(P, b)
             extra = [e for e in list(b.effects.values()) if e.kind not in ("alias", "other")]
             ctx.ob("CEN-core", "core:Callbag::from", ok and not extra, "Callbag::from boxes the handler unchanged" if ok and not extra else "Callbag::from builds %s" % show(r), loc_of(b.span))
